@@ -205,7 +205,7 @@ def oracle(case, obs, res):
             res.fail("seq_not_1_to_M", f"{what}: interruptions events carry seq_nums {seqs}, expected 1..{len(seqs)} in order", **F())
         if run["stop_doc"] is not None:
             n = (run["stop_doc"].get("num_events") or {}).get("interruptions", 0)
-            if not (n_min <= n <= n_max):
+            if not (n_min <= n <= n_max) or n != len(evs):
                 res.fail(
                     "num_events_mismatch",
                     f"{what}: RunStop.num_events['interruptions']={(run['stop_doc'].get('num_events') or {}).get('interruptions', 'missing')} "
@@ -427,7 +427,7 @@ def run(ctx):
     ctx.sweep(sweep + off + pairs, check_case)
     ctx.extra["sweep_cases"] = len(sweep) + len(off)
     ctx.extra["pair_cases"] = len(pairs)
-    ctx.hyp(cases, check_case, max_examples=ctx.pick(1500, 40000), tag="c40")
+    ctx.hyp(cases, check_case, max_examples=ctx.pick(1500, 30000), tag="c40")
 
 
 def replay(case):
